@@ -12,7 +12,7 @@ theorem encPrim_bind (n : String) (v : Val) (b : Bytes) (env : Env) (id : Nat) (
   cases v with
   | nat k =>
     unfold encPrim at h
-    cases hk : primKind n <;> simp [hk, encUpdateMask] at h
+    cases hk : primKind n <;> simp [hk, encUpdateMask, encMask, encNamedGuid, encVirp] at h
   | _ => rfl
 
 theorem iterEnc_u32_length : ∀ (vs : List Val) (b : Bytes), iterEnc encU32V vs = some b → b.length = 4 * vs.length
@@ -74,6 +74,228 @@ theorem encUpdateMask_lo (v : Val) (b : Bytes) (h : encUpdateMask v = some b) : 
     · cases h
   · cases h
 
+theorem encMask_lo (w : Nat) (enc : Val → Option Bytes) (v : Val) (b : Bytes) (h : encMask w enc v = some b) : w ≤ b.length := by
+  cases v with
+  | list slots =>
+    simp only [encMask] at h
+    split at h
+    · cases h1 : encSlots enc slots with
+      | none => simp [h1] at h
+      | some q =>
+        obtain ⟨m, sb⟩ := q
+        simp only [h1] at h
+        cases h2 : encInt w .le (bitsToNat m) with
+        | none => simp [h2] at h
+        | some pb =>
+          simp only [h2, Option.map_some, Option.some.injEq] at h
+          subst h
+          have := encInt_length w .le _ pb h2
+          simp; omega
+    · cases h
+  | _ => simp [encMask] at h
+
+theorem encNamedGuid_lo (v : Val) (b : Bytes) (h : encNamedGuid v = some b) : 8 ≤ b.length := by
+  unfold encNamedGuid at h
+  split at h
+  · split at h
+    · simp [encInt_length 8 .le _ b h]
+    · cases h
+  · rename_i g s
+    split at h
+    · cases h0 : encInt 8 .le g with
+      | none => simp [h0] at h
+      | some gb =>
+        simp only [h0, Option.map_some, Option.some.injEq] at h
+        subst h
+        have := encInt_length 8 .le _ gb h0
+        simp; omega
+    · cases h
+  · cases h
+
+theorem encVirp_lo (v : Val) (b : Bytes) (h : encVirp v = some b) : 4 ≤ b.length := by
+  unfold encVirp at h
+  split at h
+  · split at h
+    · simp [encInt_length 4 .le _ b h]
+    · cases h
+  · rename_i id sf
+    split at h
+    · cases h0 : encInt 4 .le id with
+      | none => simp [h0] at h
+      | some a =>
+        cases h1 : encInt 4 .le sf with
+        | none => simp [h0, h1] at h
+        | some c =>
+          simp only [h0, h1, Option.some.injEq] at h
+          subst h
+          have := encInt_length 4 .le _ a h0
+          simp; omega
+    · cases h
+  · cases h
+
+/-! upper bound of the fixed-layout masks (`primBounds … .hi`): pattern bytes plus at most one maximal element per slot -/
+theorem encB_hi (l : BLeaf) (n : Nat) (b : Bytes) (h : encB l n = some b) : b.length ≤ bleafMax [l] := by
+  cases l with
+  | u8 => simp only [encB] at h; simp [bleafMax, encInt_length 1 .le _ b h]
+  | u16 => simp only [encB] at h; simp [bleafMax, encInt_length 2 .le _ b h]
+  | u32 => simp only [encB] at h; simp [bleafMax, encInt_length 4 .le _ b h]
+  | pg =>
+    simp only [encB] at h
+    split at h
+    · simp only [Option.some.injEq] at h
+      subst h
+      have h8 : (encLE 8 n).length = 8 := length_encLE 8 n
+      have hp2 : ∀ bs : Bytes, (packBytes bs).2.length ≤ bs.length := by
+        intro bs
+        induction bs with
+        | nil => simp [packBytes]
+        | cons x bs ih => simp only [packBytes]; split <;> simp <;> omega
+      have := hp2 (encLE 8 n)
+      simp [bleafMax]; omega
+    · cases h
+  | bool32 =>
+    simp only [encB] at h
+    split at h
+    · simp [bleafMax, encInt_length 4 .le _ b h]
+    · cases h
+  | dt =>
+    simp only [encB] at h
+    split at h
+    · simp [bleafMax, encInt_length 4 .le _ b h]
+    · cases h
+
+theorem bleafMax_cons (l : BLeaf) (ls : List BLeaf) : bleafMax (l :: ls) = bleafMax [l] + bleafMax ls := by
+  cases l <;> simp [bleafMax]
+
+theorem encBs_hi : ∀ (ls : List BLeaf) (vs : List Val) (b : Bytes), encBs ls vs = some b → b.length ≤ bleafMax ls
+  | [], [], b, h => by simp only [encBs, Option.some.injEq] at h; subst h; simp [bleafMax]
+  | [], _ :: _, b, h => by simp [encBs] at h
+  | l :: ls, [], b, h => by simp [encBs] at h
+  | l :: ls, v :: vs, b, h => by
+    cases v with
+    | nat n =>
+      simp only [encBs] at h
+      cases h1 : encB l n with
+      | none => simp [h1] at h
+      | some b1 =>
+        cases h2 : encBs ls vs with
+        | none => simp [h1, h2] at h
+        | some b2 =>
+          simp only [h1, h2, Option.some.injEq] at h
+          subst h
+          have a := encB_hi l n b1 h1
+          have c := encBs_hi ls vs b2 h2
+          rw [bleafMax_cons]; simp; omega
+    | _ => simp [encBs] at h
+
+theorem encSlots_hi (enc : Val → Option Bytes) (k : Nat) (he : ∀ v b, enc v = some b → b.length ≤ k) :
+    ∀ (vs : List Val) (m : List Bool) (b : Bytes), encSlots enc vs = some (m, b) → b.length ≤ vs.length * k
+  | [], m, b, h => by
+    simp only [encSlots, Option.some.injEq, Prod.mk.injEq] at h
+    rw [← h.2]; simp
+  | v :: vs, m, b, h => by
+    cases v with
+    | list es =>
+      cases es with
+      | nil =>
+        simp only [encSlots] at h
+        cases h1 : encSlots enc vs with
+        | none => simp [h1] at h
+        | some q =>
+          obtain ⟨m1, b1⟩ := q
+          simp only [h1, Option.some.injEq, Prod.mk.injEq] at h
+          have ih := encSlots_hi enc k he vs m1 b1 h1
+          rw [← h.2, List.length_cons, Nat.succ_mul]; omega
+      | cons e es' =>
+        cases es' with
+        | nil =>
+          simp only [encSlots] at h
+          cases h0 : enc e with
+          | none => simp [h0] at h
+          | some eb =>
+            cases h1 : encSlots enc vs with
+            | none => simp [h0, h1] at h
+            | some q =>
+              obtain ⟨m1, b1⟩ := q
+              simp only [h0, h1, Option.some.injEq, Prod.mk.injEq] at h
+              have ih := encSlots_hi enc k he vs m1 b1 h1
+              have a := he e eb h0
+              rw [← h.2, List.length_cons, Nat.succ_mul, List.length_append]; omega
+        | cons _ _ => simp [encSlots] at h
+    | _ => simp [encSlots] at h
+
+/-- a fixed-layout mask never exceeds the published maximum: `w` pattern bytes and `8·w` slots of the element's maximal size -/
+theorem encMask_hi (w : Nat) (ls : List BLeaf) (v : Val) (b : Bytes) (h : encMask w (tupleOf ls) v = some b) :
+    b.length ≤ w + 8 * w * bleafMax ls := by
+  cases v with
+  | list slots =>
+    simp only [encMask] at h
+    split at h
+    · rename_i hl
+      cases h1 : encSlots (tupleOf ls) slots with
+      | none => simp [h1] at h
+      | some q =>
+        obtain ⟨m, sb⟩ := q
+        simp only [h1] at h
+        cases h2 : encInt w .le (bitsToNat m) with
+        | none => simp [h2] at h
+        | some pb =>
+          simp only [h2, Option.map_some, Option.some.injEq] at h
+          subst h
+          have a := encInt_length w .le _ pb h2
+          have c := encSlots_hi (tupleOf ls) (bleafMax ls) (fun v b hv => by
+            cases v with
+            | tuple fs => simp only [tupleOf] at hv; exact encBs_hi ls fs b hv
+            | _ => simp [tupleOf] at hv) slots m sb h1
+          rw [hl] at c
+          simp; omega
+    · cases h
+  | _ => simp [encMask] at h
+
+theorem encPrim_mask_hi (n : String) (w : Nat) (ls : List BLeaf) (hk : primKind n = .mask w ls) (v : Val) (b : Bytes) (h : encPrim n v = some b) :
+    ∀ hi, (primBounds n).hi = some hi → b.length ≤ hi := by
+  intro hi hh
+  simp only [primBounds, hk, Option.some.injEq] at hh
+  unfold encPrim at h
+  simp only [hk] at h
+  rw [← hh]; exact encMask_hi w ls v b h
+
+theorem encVirp_hi (v : Val) (b : Bytes) (h : encVirp v = some b) : b.length ≤ 8 := by
+  unfold encVirp at h
+  split at h
+  · split at h
+    · simp [encInt_length 4 .le _ b h]
+    · cases h
+  · rename_i id sf
+    split at h
+    · cases h0 : encInt 4 .le id with
+      | none => simp [h0] at h
+      | some a =>
+        cases h1 : encInt 4 .le sf with
+        | none => simp [h0, h1] at h
+        | some c =>
+          simp only [h0, h1, Option.some.injEq] at h
+          subst h
+          have := encInt_length 4 .le _ a h0
+          have := encInt_length 4 .le _ c h1
+          simp; omega
+    · cases h
+  · cases h
+
+/-- every maximum `primBounds` publishes for a built-in type whose size does not depend on a string length is sound -/
+theorem encPrim_hi (n : String) (hng : primKind n ≠ .namedGuid) (v : Val) (b : Bytes) (h : encPrim n v = some b) :
+    ∀ hi, (primBounds n).hi = some hi → b.length ≤ hi := by
+  intro hi hh
+  cases hk : primKind n with
+  | mask w ls => exact encPrim_mask_hi n w ls hk v b h hi hh
+  | virp =>
+    simp only [primBounds, hk, Option.some.injEq] at hh
+    unfold encPrim at h
+    simp only [hk] at h
+    rw [← hh]; exact encVirp_hi v b h
+  | namedGuid => exact absurd hk hng
+  | _ => simp [primBounds, hk] at hh
+
 /-- the built-in codecs inside the semantics always emit their 4-byte terminator / count -/
 theorem encPrim_lo (L : Limits) (n : String) (v : Val) (b : Bytes) (h : encPrim n v = some b) : (leafBounds L (.prim n)).lo ≤ b.length := by
   unfold encPrim at h
@@ -110,6 +332,10 @@ theorem encPrim_lo (L : Limits) (n : String) (v : Val) (b : Bytes) (h : encPrim 
               simp; omega
     | _ => simp [hk] at h
   | updateMask => simp only [hk] at h; exact encUpdateMask_lo v b h
+  | mask w ls => simp only [hk] at h; exact encMask_lo w _ v b h
+  | gear => simp only [hk] at h; exact encMask_lo 4 _ v b h
+  | namedGuid => simp only [hk] at h; exact encNamedGuid_lo v b h
+  | virp => simp only [hk] at h; exact encVirp_lo v b h
   | other => cases v <;> simp [hk] at h
 
 theorem leaf_lo (L : Limits) (l : Leaf) (v : Val) (b : Bytes) (h : encLeaf l v = some b) : (leafBounds L l).lo ≤ b.length := by
@@ -359,3 +585,9 @@ end WowVerif.Sem
 
 open WowVerif.Sem in
 #print axioms bounds_lo_sound
+open WowVerif.Sem in
+#print axioms encMask_hi
+open WowVerif.Sem in
+#print axioms encPrim_mask_hi
+open WowVerif.Sem in
+#print axioms encPrim_hi
